@@ -14,12 +14,27 @@
 (*   prog  an embedding program assigns Config.Telemetry.Enabled after      *)
 (*         NewConfig returned                                               *)
 (* hasFile: the server is started with a configuration file at all.         *)
+(*                                                                          *)
+(* Two further dimensions of a run:                                         *)
+(*   ival / ivalBy  the reporting interval (telemetry.interval.seconds):    *)
+(*         "default" (not set anywhere: 24 h), "custom" (a positive value), *)
+(*         "zero", "negative"; set through the file or programmatically    *)
+(*         (a hand-built `TelemetryConfig{Enabled: false}` is prog = false  *)
+(*         with ival = zero by prog).  The interval must never influence    *)
+(*         WHETHER reports are sent.                                        *)
+(*   idfile   state of <data dir>/.instance_id when the server starts: "ok"  *)
+(*         (absent or readable: a random UUID is created / loaded) or       *)
+(*         "unusable" (can be neither read nor written, e.g. it is a        *)
+(*         directory): telemetry.New fails and the server runs WITHOUT a    *)
+(*         collector - it must not report under some other identity.        *)
 EXTENDS Integers, Sequences, FiniteSets
 
 CONSTANTS EnvHonoured     \* TRUE: NewConfig as repaired (fix: commit); FALSE: as pinned (env ignored)
 
 Tri == {"unset", "true", "false"}
-Routes == [file : Tri, env : Tri, prog : Tri, hasFile : BOOLEAN]
+Ivals == {"default", "custom", "zero", "negative"}
+Routes == [file : Tri, env : Tri, prog : Tri, hasFile : BOOLEAN,
+          ival : Ivals, ivalBy : {"file", "prog"}, idfile : {"ok", "unusable"}]
 B(t) == t = "true"
 
 \* documented fields of a report (CHANGELOG "Anonymous Telemetry"): instance id,
@@ -51,6 +66,14 @@ CodeConfig(r) == IF EnvHonoured THEN DocConfig(r) ELSE FileValue(r)
 (* of higher precedence asks for "on" => no request, ever.                  *)
 MustBeSilent(r) == ~DocEnabled(r)
 
+(* An ENABLED collector with a non-positive interval is outside the         *)
+(* property (and outside the runs): time.NewTicker panics on it in the      *)
+(* pinned code.  A file cannot set the interval when there is no file.      *)
+Feasible(r) ==
+  /\ (r.ival \in {"zero", "negative"}) => ~DocEnabled(r)
+  /\ (r.ivalBy = "file") => (r.hasFile /\ r.ival # "default")
+  /\ (r.ival = "default") => r.ivalBy = "prog"
+
 -----------------------------------------------------------------------------
 VARIABLES route,      \* the configuration routes of this run
           phase,      \* "init" -> "loaded" -> "started" -> "stopped"
@@ -61,17 +84,18 @@ VARIABLES route,      \* the configuration routes of this run
           sent,       \* number of HTTP requests made
           keys,       \* key paths of the body of the last request
           hdrs,       \* header names of the last request
-          leaks       \* classes of server strings found in any request (body, headers, URL)
+          leaks,      \* classes of server strings found in any request (body, headers, URL)
+          idsOK       \* every request so far carried an instance_id of random-UUID (v4) shape
 
-vars == <<route, phase, enabled, collector, running, userData, sent, keys, hdrs, leaks>>
+vars == <<route, phase, enabled, collector, running, userData, sent, keys, hdrs, leaks, idsOK>>
 
 Init ==
-  /\ route \in Routes
+  /\ route \in {r \in Routes : Feasible(r)}
   /\ phase = "init" /\ enabled = TRUE /\ collector = FALSE /\ running = FALSE
-  /\ userData = FALSE /\ sent = 0 /\ keys = {} /\ hdrs = {} /\ leaks = {}
+  /\ userData = FALSE /\ sent = 0 /\ keys = {} /\ hdrs = {} /\ leaks = {} /\ idsOK = TRUE
 
-Request == /\ sent' = sent + 1 /\ keys' = PayloadKeys /\ hdrs' = SentHeaders /\ leaks' = leaks
-Silent  == UNCHANGED <<sent, keys, hdrs, leaks>>
+Request == /\ sent' = sent + 1 /\ keys' = PayloadKeys /\ hdrs' = SentHeaders /\ leaks' = leaks /\ idsOK' = idsOK
+Silent  == UNCHANGED <<sent, keys, hdrs, leaks, idsOK>>
 
 \* NewConfig(file) under the environment, then the embedding program's assignment
 DoLoadConfig ==
@@ -80,13 +104,14 @@ DoLoadConfig ==
   /\ enabled' = IF route.prog # "unset" THEN B(route.prog) ELSE CodeConfig(route)
   /\ Silent /\ UNCHANGED <<route, collector, running, userData>>
 
-\* Server.Start: the collector is created only when enabled, started, and its
-\* goroutine sends the initial beacon at once
+\* Server.Start: the collector is created only when enabled (the interval plays no part) and when
+\* telemetry.New could load or create the instance id; it is started, and its goroutine sends the
+\* initial beacon at once
 DoStart ==
   /\ phase = "loaded"
   /\ phase' = "started"
-  /\ collector' = enabled /\ running' = enabled
-  /\ IF enabled THEN Request ELSE Silent
+  /\ collector' = (enabled /\ route.idfile = "ok") /\ running' = collector'
+  /\ IF collector' THEN Request ELSE Silent
   /\ UNCHANGED <<route, enabled, userData>>
 
 \* streams are created, messages published, credentials configured
@@ -115,6 +140,7 @@ Spec == Init /\ [][Next]_vars
 C19_Silent    == MustBeSilent(route) => sent = 0
 C19_Whitelist == keys \subseteq Whitelist /\ hdrs \subseteq HeaderWhitelist
 C19_NoLeak    == leaks = {}
+C19_InstanceId == idsOK      \* the instance id of a report is a random UUID, never a host / server string
 \* route and count only move forward
 C19_Step == [][route' = route /\ sent' >= sent]_vars
 
